@@ -351,6 +351,23 @@ func Worker(t *testing.T) {
 		}
 
 		res := execRun(t, prop, sc, seed, nil, tier, false)
+
+		// development aid (VERIF_DOUBLECHECK=n): every n-th run is replayed from its own tape at once; the trace must be identical
+		if dc := envInt("VERIF_DOUBLECHECK", 0); dc > 0 && out.Runs%dc == 0 && res.Viol == nil {
+			vals := make([]uint32, len(res.Tape))
+			for j, d := range res.Tape {
+				vals[j] = d.V
+			}
+
+			again := execRun(t, prop, sc, seed, vals, tier, false)
+			if again.TraceHash != res.TraceHash {
+				res.Viol = &simkit.Violation{Property: "HARNESS", Oracle: "nondeterminism", Fingerprint: "HARNESS/nondeterminism",
+					Detail: fmt.Sprintf("scenario %s seed %d: replaying the run from its own tape gave another trace (%s vs %s)", sc.Name, seed, res.TraceHash[:12], again.TraceHash[:12])}
+			}
+
+			out.Extra["doublechecked_runs"]++
+		}
+
 		out.Runs++
 		out.PerScen[sc.Name]++
 		out.Steps += res.Steps
